@@ -155,6 +155,30 @@ class Loader(importlib.abc.Loader):
             module.__dict__["ctypes"] = SymCtypes
         if module.__dict__.get("ast") is ast:
             module.__dict__["ast"] = SymAst()
+        import re
+
+        if module.__dict__.get("re") is re:
+            from .symre import SymRe
+
+            from .symre import SymPattern
+            from .core import Unmodelled
+
+            module.__dict__["re"] = SymRe()
+
+            def wrap(v):
+                try:
+                    return SymPattern(v)
+                except Unmodelled:
+                    return v
+
+            # patterns compiled while the module body ran (class attributes, globals)
+            for k, v in list(module.__dict__.items()):
+                if isinstance(v, re.Pattern):
+                    module.__dict__[k] = wrap(v)
+                elif isinstance(v, type) and v.__module__ == module.__name__:
+                    for ak, av in list(vars(v).items()):
+                        if isinstance(av, re.Pattern):
+                            setattr(v, ak, wrap(av))
         LOADED[self.fullname] = self.path
 
 
